@@ -207,7 +207,7 @@ class Summary:
 class DynFrame:
     """dynamic frame: static frame + hole callback + inline depth"""
     __slots__ = ('frame', 'hole', 'depth', 'assume', 'single_assign', 'ptypes',
-                 'want_truth', 'bindings', 'fid', 'helper_depth')
+                 'want_truth', 'bindings', 'fid', 'helper_depth', 'manager')
     _next_fid = [0]
 
     def __init__(self, frame: Frame, depth=0, hole=None, assume=None, ptypes=None,
@@ -223,6 +223,9 @@ class DynFrame:
         #: 'enter' event in the path) so that rules can follow values into the caller
         self.bindings = bindings
         self.helper_depth = helper_depth
+        #: (position of the with-enter event, constructor expression, class) when this
+        #: frame runs __enter__/__exit__ of a context manager object in place
+        self.manager = None
         DynFrame._next_fid[0] += 1
         self.fid = DynFrame._next_fid[0]
 
@@ -605,6 +608,8 @@ class Interp:
         event.data['pos'] = len(st.events)
         if fr.bindings is not None:
             event.data['bind'] = fr.bindings
+        if fr.manager is not None:
+            event.data['mgr'] = fr.manager
         st.events.append(event)
         return event
 
@@ -1453,8 +1458,22 @@ class Interp:
         # a context manager class of the package: entering calls __enter__; leaving calls
         # __exit__ with what is pending, and a true result swallows it
         raised = []
-        entered = self._call_effect(item.context_expr, enter, [], st, fr, raised,
-                                    how='with-enter')
+        in_place = self.helpers and len(enter) == 1 and \
+            fr.helper_depth < self.HELPER_DEPTH and not self.summary(enter[0]).cyclic and \
+            self.summary(enter[0]).n_paths <= 48 and \
+            self.summary(leave[0], 'none').n_paths <= 48
+        manager = (len(st.events) - 1, item.context_expr, enter[0].recv)
+        if in_place:
+            entered = []
+            for out, s in self._manager_frame(item, enter[0], st, fr, 'with-enter', None,
+                                              manager):
+                if out[0] == 'raise':
+                    raised.append((out, s))
+                else:
+                    entered.append(s)
+        else:
+            entered = self._call_effect(item.context_expr, enter, [], st, fr, raised,
+                                        how='with-enter')
         results = list(raised)
         for start in entered:
             for out, s in body(start):
@@ -1464,7 +1483,45 @@ class Interp:
                     which = 'none'
                 self._emit(s, 'with-exit', stmt, fr, callees=leave, outcome=out[0],
                            expr=item.context_expr, which=which)
-                results.extend(self._with_exit(item, leave, out, s, fr, which))
+                if in_place:
+                    for res, s2 in self._manager_frame(item, leave[0], s, fr, 'with-exit',
+                                                       which, manager):
+                        if res[0] == 'raise':
+                            results.append((res, s2))
+                        elif out[0] == 'raise' and res[0] == 'return' and \
+                                len(res) > 2 and res[2]:
+                            self._emit(s2, 'swallow', item.context_expr, fr,
+                                       exc=out[1].cls)
+                            results.append((NORMAL, s2))
+                        else:
+                            results.append((out, s2))
+                else:
+                    results.extend(self._with_exit(item, leave, out, s, fr, which))
+        return results
+
+    def _manager_frame(self, item, callee: Callee, st: St, fr: DynFrame, how, which,
+                       manager):
+        """run ``__enter__`` / ``__exit__`` of a context manager object in place (rule
+        paths): same depth as the ``with`` statement, the frame tagged with the manager so
+        that rules can follow its attributes to the constructor's arguments"""
+        node = item.context_expr
+        self._emit(st, 'enter', node, fr, callee=callee, how=how, which=which, expr=node)
+        sub = DynFrame(Frame(callee.fn, callee.recv), depth=fr.depth,
+                       assume=self.assume_for(callee, which) if which else None,
+                       ptypes=self.ptypes_for(callee, which) if which else None,
+                       want_truth=how == 'with-exit', helper_depth=fr.helper_depth + 1)
+        sub.manager = manager
+        saved = st.facts
+        st.facts = dict(sub.assume) if sub.assume else {}
+        self.stats['functions'].add(callee.key())
+        results = []
+        for out, s in self.exec_block(callee.fn.node.body, st, sub):
+            s.facts = {k: v for k, v in saved.items() if not _fact_has_attr(k)}
+            self._emit(s, 'leave', node, fr, callee=callee, how=how, outcome=out[0],
+                       ret=out[1] if out[0] == 'return' else None)
+            if out[0] not in ('normal', 'return', 'raise'):
+                raise AnalysisError('break/continue escaping %s' % callee)
+            results.append((out, s))
         return results
 
     def _with_exit(self, item, leave, pending, st: St, fr: DynFrame, which):
@@ -1789,7 +1846,8 @@ class Interp:
                 return False
         elif fn.cls is not None:
             if not self._same_self(node, fr, callee) and \
-                    not self._same_receiver(node, fr, callee):
+                    not self._same_receiver(node, fr, callee) and \
+                    not self._manager_owner(node, fr, callee):
                 return False
         else:
             if fn.module is not fr.fn.module or fn.parent is not None:
@@ -1845,6 +1903,8 @@ class Interp:
         saved = st.facts
         st.facts = {}
         same_self = callee.fn.cls is not None
+        if fr.manager is not None and not self._same_self(node, fr, callee):
+            same_self = False  # `self` of the manager object is not `self` of its owner
         renames = [(arg.id, name) for name, (arg, _i) in bindings.items()
                    if isinstance(arg, ast.Name)]
         for key_, value in saved.items():
@@ -1882,6 +1942,40 @@ class Interp:
         finally:
             self._helper_stack.pop()
         return results
+
+    def _manager_owner(self, node, fr: DynFrame, callee: Callee) -> bool:
+        """inside __enter__/__exit__ of a context manager object run in place: the call is
+        ``self.<field>.m(...)`` where the constructor put the ``self`` of the ``with``
+        statement's method into ``<field>`` -- a private method of the object that uses the
+        manager, run in place as well"""
+        if fr.manager is None:
+            return False
+        call = node.value if isinstance(node, (ast.Await, ast.YieldFrom)) else node
+        if not (isinstance(call, ast.Call) and isinstance(call.func, ast.Attribute)
+                and isinstance(call.func.value, ast.Attribute)
+                and isinstance(call.func.value.value, ast.Name)
+                and call.func.value.value.id == 'self'):
+            return False
+        field = call.func.value.attr
+        _pos, ctor, cls_qn = fr.manager
+        init = self.p.find_method(cls_qn, '__init__')
+        if init is None or not isinstance(ctor, ast.Call) or ctor.keywords:
+            return False
+        binding = self.p.resolve_dotted(fr.fn.module, ctor.func) \
+            if isinstance(ctor.func, (ast.Name, ast.Attribute)) else None
+        if not (binding and binding[0] == 'class' and binding[1] == cls_qn):
+            return False
+        params = [a.arg for a in (init.node.args.posonlyargs + init.node.args.args)[1:]]
+        for stmt in init.node.body:
+            if isinstance(stmt, ast.Assign) and len(stmt.targets) == 1 and \
+                    isinstance(stmt.targets[0], ast.Attribute) and \
+                    stmt.targets[0].attr == field and isinstance(stmt.value, ast.Name) and \
+                    stmt.value.id in params:
+                position = params.index(stmt.value.id)
+                return position < len(ctor.args) and \
+                    isinstance(ctor.args[position], ast.Name) and \
+                    ctor.args[position].id == 'self'
+        return False
 
     def _same_self(self, node, fr: DynFrame, callee: Callee) -> bool:
         """the call is ``self.m(...)`` / ``super().m(...)`` with both selves named `self`"""
